@@ -79,10 +79,13 @@ class Subject:
             self.top = testtools.TestResultDecorator(leaf("ext"))
         elif n == "Tagger[ext]":
             self.tagger = (frozenset(["tg"]), frozenset(["a"]))
-            self.top = testtools.Tagger(leaf("ext"), {"tg"}, {"a"})
+            self.top = testtools.Tagger(leaf("ext"), iter(["tg"]), (t for t in ["a"]))
         elif n == "Tagger[Multi[ext,real]]":
             self.tagger = (frozenset(["tg"]), frozenset(["a"]))
-            self.top = testtools.Tagger(testtools.MultiTestResult(leaf("ext"), leaf("real")), {"tg"}, {"a"})
+            scratch_new, scratch_gone = {"tg"}, {"a"}
+            self.top = testtools.Tagger(testtools.MultiTestResult(leaf("ext"), leaf("real")), scratch_new, scratch_gone)
+            scratch_new.clear()          # the caller reuses its scratch sets
+            scratch_gone.update({"tg", "b"})
         elif n == "Multi[Tagger[ext],ext]":
             # the multiplexer's own view must not be borrowed from a tag-changing constituent
             tagged_log = recorders.Log()
